@@ -536,3 +536,86 @@ def submodel_cache(ctx, repo):
 
 
 C10.append(submodel_cache)
+
+
+# ---------------------------------------------------------------------------
+# TRANSP: a consumer that skips None cells needs the producer mode that emits them
+# ---------------------------------------------------------------------------
+def transparent_flatten(ctx, repo):
+    ctx.rule("TRANSP", "PairPos format 2 flattening: the caller that picks the first non-None cell of the aligned matrices asks _PairPosFormat2_align_matrices for transparent rows (None for glyphs a subtable does not cover); with the default opaque rows the first subtable's zero records hide every later subtable", floor=2)
+    mod = repo.mod("varLib/merger.py")
+    prod = mod.func("_PairPosFormat2_align_matrices")
+    dflt = {a.arg: try_fold(d) for a, d in zip(prod.node.args.args[len(prod.node.args.args) - len(prod.node.args.defaults):], prod.node.args.defaults)}
+    emits_none = any(isinstance(st, ast.If) and norm(st.test) == "transparent" and any(isinstance(b, ast.Assign) and isinstance(b.value, ast.Constant) and b.value.value is None for b in st.body) for st in ast.walk(prod.node))
+    ctx.ob("TRANSP", prod.where, f"transparent defaults to {dflt.get('transparent')}; None cells only when it is true", dflt.get("transparent") is False and emits_none)
+    n = 0
+    for q, f in sorted(mod.funcs.items()):
+        calls = [c for c in calls_in(f.node) if call_name(c) == "_PairPosFormat2_align_matrices"]
+        if not calls:
+            continue
+        filters_none = any(isinstance(x, ast.Compare) and isinstance(x.ops[0], ast.IsNot) and isinstance(x.comparators[0], ast.Constant) and x.comparators[0].value is None and isinstance(parent(x), ast.comprehension) for x in ast.walk(f.node))
+        for c in calls:
+            tr = next((try_fold(k.value) for k in c.keywords if k.arg == "transparent"), try_fold(c.args[3]) if len(c.args) > 3 else dflt.get("transparent"))
+            n += 1
+            ok = (tr is True) == filters_none
+            ctx.ob("TRANSP", f.where, f"{norm(c)[:80]}: transparent={tr}, consumer skips None cells: {filters_none}", ok, "" if ok else "the consumer expects None placeholders but the producer fills explicit zero records (or the reverse)")
+    if n < 2:
+        raise AnalysisError("TRANSP: expected two callers of _PairPosFormat2_align_matrices")
+
+
+C10.append(transparent_flatten)
+
+
+# ---------------------------------------------------------------------------
+# PERM: the two master permutations are used in the right direction
+# ---------------------------------------------------------------------------
+def master_permutations(ctx, repo):
+    ctx.rule("PERM", "VariationModel keeps mapping (caller's master index -> sorted index) and reverseMapping (sorted index -> caller's index); values given in the caller's order are read through reverseMapping when walking sorted slots, results in sorted order are returned through mapping, and masters are put into sorted order with reverseMapping", floor=6)
+    mod = repo.mod("varLib/models.py")
+    for fn in ("VariationModel.__init__", "VariationModel.reorderMasters"):
+        f = mod.func(fn)
+        d = {}
+        for st in walk_no_nested(f.node):
+            if isinstance(st, ast.Assign) and isinstance(st.targets[0], ast.Attribute) and st.targets[0].attr in ("mapping", "reverseMapping"):
+                v = st.value
+                if isinstance(v, ast.ListComp) and isinstance(v.elt, ast.Call) and isinstance(v.elt.func, ast.Attribute) and v.elt.func.attr == "index" and len(v.generators) == 1 and len(v.elt.args) == 1 and norm(v.elt.args[0]) == norm(v.generators[0].target):
+                    d[st.targets[0].attr] = f"index in {norm(v.elt.func.value)} of each item of {norm(v.generators[0].iter)}"
+                else:
+                    d[st.targets[0].attr] = norm(v)
+        ok = d.get("mapping") == "index in self.locations of each item of locations" and d.get("reverseMapping") == "index in locations of each item of self.locations"
+        ctx.ob("PERM", f.where, f"mapping = {d.get('mapping')}; reverseMapping = {d.get('reverseMapping')}", ok, "" if ok else "the two permutations are no longer inverse tables built from the same pair of location lists")
+    gd = mod.func("VariationModel.getDeltas")
+    al = {st.targets[0].id: norm(st.value) for st in walk_no_nested(gd.node) if isinstance(st, ast.Assign) and isinstance(st.targets[0], ast.Name) and norm(st.value) in ("self.mapping", "self.reverseMapping")}
+    subs = [n for n in ast.walk(gd.node) if isinstance(n, ast.Subscript) and norm(n.value) == "masterValues"]
+    used = set()
+    for s_ in subs:
+        for x in ast.walk(s_.slice):
+            if isinstance(x, ast.Name) and x.id in al:
+                used.add(al[x.id])
+            elif isinstance(x, ast.Attribute) and norm(x) in ("self.mapping", "self.reverseMapping"):
+                used.add(norm(x))
+    ctx.ob("PERM", gd.where, f"masterValues (caller's order) indexed through {sorted(used)} in the loop over sorted delta weights", used == {"self.reverseMapping"}, "" if used == {"self.reverseMapping"} else "each sorted slot must fetch the caller's master with reverseMapping")
+    ms = mod.func("VariationModel.getMasterScalars")
+    used = {norm(x) for n in ast.walk(ms.node) if isinstance(n, ast.Subscript) and norm(n.value) == "out" for x in ast.walk(n.slice) if isinstance(x, ast.Attribute) and norm(x) in ("self.mapping", "self.reverseMapping")}
+    ctx.ob("PERM", ms.where, f"scalars (sorted order) returned in the caller's order through {sorted(used)}", used == {"self.mapping"})
+    n = 0
+    for rel in ("varLib/__init__.py", "varLib/cff.py", "varLib/merger.py", "varLib/featureVars.py"):
+        m = repo.mod(rel)
+        for q, f in sorted(m.funcs.items()):
+            for c in calls_in(f.node, nested=False):
+                if last_attr(c) == "reorderMasters" and len(c.args) == 2:
+                    n += 1
+                    recv = norm(c.func.value)
+                    ok = norm(c.args[1]) == recv + ".reverseMapping"
+                    ctx.ob("PERM", f.where, norm(c)[:90], ok, "" if ok else f"masters are moved into sorted order with {recv}.reverseMapping (sorted slot -> caller's index); the inverse table sends them to the wrong slots for cyclic orders")
+            for s_ in ast.walk(f.node):
+                if isinstance(s_, ast.Subscript) and isinstance(s_.value, ast.Attribute) and s_.value.attr in ("mapping", "reverseMapping") and "odel" in norm(s_.value.value):
+                    n += 1
+                    zero = norm(s_.slice) == "0"
+                    ok = (s_.value.attr == "reverseMapping") == zero
+                    ctx.ob("PERM", f.where, norm(s_), ok, "" if ok else "sorted slot 0 (the default master) maps to the caller's index through reverseMapping; a caller's index maps to its slot through mapping")
+    if n < 3:
+        raise AnalysisError("PERM: fewer than 3 uses of the model permutations found in varLib")
+
+
+C10.append(master_permutations)
